@@ -20,6 +20,9 @@ CORPUS = [
     ("jobs posting jobs, full queue", "pool 2 2\nclient add:1 add:2 add:3 add:4 add:5 barrier join free\nbody 1 tryadd:10 tryadd:11\nbody 2 add:12\n"),
     ("free with queued jobs", "pool 1 2\nclient add:1 add:2 add:3 free\nbody 1 sleep:50\n"),
     ("resize 0 is refused", "pool 2 0\nclient resize:0 add:1 resize:3 add:2 resize:1 add:3 barrier join free\n"),
+    ("shrink, then grow beyond the original capacity, jobs in flight at free", "pool 3 1\nclient resize:1 add:1 resize:4 add:2 add:3 add:4 add:5 free\nbody 2 sleep:80\nbody 3 sleep:80\nbody 4 sleep:80\n"),
+    ("shrink then grow, idle pool", "pool 3 0\nclient resize:1 resize:4 free\n"),
+    ("shrink twice, grow, join, free", "pool 3 2\nclient resize:2 add:1 resize:1 add:2 resize:4 add:3 add:4 barrier join free\nbody 1 sleep:30\n"),
 ]
 
 
